@@ -1,5 +1,5 @@
 """C07 - containers and stores are bounded, conservative, ordered, never strand a request"""
-from . import resources as R, whomay, guards
+from . import resources as R, whomay, guards, deps
 
 def check(ctx):
     R.run_tables(ctx, 'C07', [
@@ -24,6 +24,7 @@ def check(ctx):
     guards.nan_refused(ctx, 'C07', [('ContainerPut', '__init__', 'amount'), ('ContainerGet', '__init__', 'amount'),
                                     ('Container', '__init__', 'capacity'), ('Container', '__init__', 'init')],
                        'a NaN level or amount makes every later guard False: the level leaves [0, capacity] and requests are stranded')
+    deps.kernel(ctx, 'C07')
     return ('Static: Container guards (level + amount <= capacity, amount <= level) and constructor bounds, Store '
             '(append / pop(0), len < capacity), PriorityStore (heappush / heappop on the same list), FilterStore (first '
             'match, never blocks the scan), the shared scan loops, request constructors and cancel-with-rescan compared '
